@@ -40,7 +40,44 @@ type c14Var struct {
 	Name string `json:"name"`
 	Kind string `json:"kind"` // see shim: enum:..., yesno, ident, version, unknown, none (untyped)
 	List bool   `json:"list"`
-	Def  string `json:"def"` // D P U L, or F = U + assigned in the file before the condition
+	Def  string `json:"def"` // D P U L (declaration), or "real" = a variable of pkglint's own table
+	// what the generated file says before the condition (c14Spec.Ctx), and the
+	// name the type is registered under (NAME or NAME.* for a parameterised variable)
+	Ctx    string `json:"ctx,omitempty"`
+	Family string `json:"family,omitempty"`
+}
+
+// the contexts that can precede the condition in the generated file
+//
+//	""          nothing
+//	self=       SUBJECT=  value   (also self?= and self+=)
+//	sibling     BASE.sib?= value  (another parameter of the same family; only for BASE.param subjects)
+//	unrelated   C14UNREL= value
+//	nested      the condition is inside .if defined(SUBJECT)
+//	cond-self   SUBJECT= value, but inside .if defined(C14OTHER) ... .endif
+var c14Contexts = []string{"", "self=", "self?=", "self+=", "sibling", "unrelated", "nested", "cond-self"}
+
+// MkLines.checkAllData.vars.IsDefined(varname): the exact name was assigned on an
+// earlier line of the file (any operator, conditional or not)
+func (v c14Var) assignedEarlier() bool {
+	switch v.Ctx {
+	case "self=", "self?=", "self+=", "cond-self":
+		return true
+	}
+	return false
+}
+
+// a value the type admits, used in the generated assignments
+func (v c14Var) sampleValue() string {
+	switch {
+	case strings.HasPrefix(v.Kind, "enum:"):
+		return strings.Fields(v.Kind[5:])[0]
+	case v.Kind == "yesno":
+		return "no"
+	case v.Kind == "version", v.Kind == "integer":
+		return "10"
+	}
+	return "alpha"
 }
 
 var c14Kinds = []struct {
@@ -79,22 +116,27 @@ func (v c14Var) flags() string {
 	return b(typed) + b(v.Kind == "unknown") + b(v.List) +
 		b(typed && v.Def == "D") +
 		b(typed && (v.Def == "D" || v.Def == "P" || v.Def == "L")) +
-		b(v.Def == "F") +
+		b(v.assignedEarlier()) +
 		b(typed && v.Def != "L")
 }
 
 // ground truth, independent of pkglint's isDefined: can the variable be
 // undefined when bmake evaluates the condition (at load time)?
 func (v c14Var) mayBeUndefined(prefs bool) bool {
+	switch v.Ctx {
+	case "self=", "self?=", "self+=", "nested":
+		// assigned unconditionally before the condition, or guarded by .if defined(SUBJECT)
+		return false
+	}
 	if v.Def == "real" {
 		for _, rv := range c14RealVars {
-			if rv.name == v.Name {
+			if rv.name == v.Name || strings.HasPrefix(v.Name, rv.name+".") && rv.param {
 				return rv.undef
 			}
 		}
 	}
 	switch v.Def {
-	case "D", "F":
+	case "D":
 		return false
 	case "P":
 		return !prefs || v.Kind == "none"
@@ -243,15 +285,52 @@ type c14Spec struct {
 	Tag      string `json:"tag"`
 	Def      string `json:"def"`
 	Prefs    bool   `json:"prefs"`
-	Real     int    `json:"real,omitempty"` // 1 + index into c14RealVars (whole-run layer), 0 = a variable declared through the shim
+	Real     int    `json:"real,omitempty"`  // 1 + index into c14RealVars (whole-run layer), 0 = a variable declared through the shim
+	Param    string `json:"param,omitempty"` // the subject is BASE.<param>
+	Ctx      string `json:"ctx,omitempty"`   // see c14Contexts
 }
 
 func (s c14Spec) variable() c14Var {
 	if s.Real > 0 {
 		rv := c14RealVars[s.Real-1]
-		return c14Var{Name: rv.name, Kind: rv.kind, List: rv.list, Def: "real"}
+		v := c14Var{Name: rv.name, Kind: rv.kind, List: rv.list, Def: "real", Ctx: s.Ctx, Family: rv.name}
+		if rv.param && s.Param != "" {
+			v.Name, v.Family = rv.name+"."+s.Param, rv.name+".*"
+		}
+		return v
 	}
-	return c14MkVar(s.Tag, s.Def)
+	v := c14MkVar(s.Tag, s.Def)
+	v.Ctx, v.Family = s.Ctx, v.Name
+	if s.Param != "" {
+		v.Name, v.Family = v.Name+"."+s.Param, v.Name+".*"
+	}
+	return v
+}
+
+// the lines of the generated file around the condition
+func (s c14Spec) context(cond string) (pre []string, line string, post []string) {
+	v := s.variable()
+	val := v.sampleValue()
+	base := strings.SplitN(v.Name, ".", 2)[0]
+	line, post = ".if "+cond, []string{".endif"}
+	switch s.Ctx {
+	case "self=", "self?=", "self+=":
+		pre = []string{v.Name + s.Ctx[4:] + "\t" + val}
+	case "sibling":
+		if s.Param != "" {
+			pre = []string{base + ".sib" + s.Param + "?=\t" + val}
+		} else {
+			pre = []string{"C14UNREL=\t" + val}
+		}
+	case "unrelated":
+		pre = []string{"C14UNREL=\t" + val}
+	case "nested":
+		pre = []string{".if defined(" + v.Name + ")"}
+		line, post = ".  if "+cond, []string{".  endif", ".endif"}
+	case "cond-self":
+		pre = []string{".if defined(C14OTHER)", v.Name + "=\t" + val, ".endif"}
+	}
+	return
 }
 
 func c14Atom(v string, form string, mods []string) *c14Node {
@@ -277,7 +356,7 @@ func (s c14Spec) mods(pat string) []string {
 	return append(ms, "N"+pat)
 }
 
-func (s c14Spec) build() (line string, tree *c14Node) {
+func (s c14Spec) build() (cond string, tree *c14Node) {
 	v := s.variable().Name
 	atom := c14Atom(v, s.Form, s.mods(s.Pat))
 	x1 := &c14Node{K: 'X', Text: "1"}
@@ -311,11 +390,11 @@ func (s c14Spec) build() (line string, tree *c14Node) {
 		left := &c14Node{K: 'A', Kids: []*c14Node{{K: 'N', Kids: []*c14Node{{K: 'D', Var: v}}}, x1}}
 		right := &c14Node{K: 'A', Kids: []*c14Node{{K: 'D', Var: v}, atom}}
 		tree = &c14Node{K: 'O', Kids: []*c14Node{left, right}}
-		return ".if " + left.text() + " || defined(" + v + ")  && " + atom.text(), tree
+		return left.text() + " || defined(" + v + ")  && " + atom.text(), tree
 	default:
 		tree = atom
 	}
-	return ".if " + tree.text(), tree
+	return tree.text(), tree
 }
 
 // ---------- pattern and value pools ----------
@@ -401,8 +480,10 @@ func c14YesNoLower(p string) string {
 
 type c14Case struct {
 	spec     c14Spec
-	layer    string // unit | wholerun
-	line     string
+	layer    string   // unit | wholerun
+	line     string   // the directive line holding the condition
+	pre      []string // the lines before it (after the optional bsd.prefs.mk include)
+	post     []string // the lines closing it
 	tree     *c14Node
 	v        c14Var
 	newLine  string      // what the real code made of the line
@@ -482,17 +563,17 @@ func (st *c14State) classifyNumbers(words []string) error {
 func c14RunImpl(c *c14Case) {
 	var vars []pkglint.VerifCondVar
 	if c.v.Kind != "none" {
-		def := c.v.Def
-		if def == "F" {
-			def = "U"
-		}
-		vars = append(vars, pkglint.VerifCondVar{Name: c.v.Name, Kind: c.v.Kind, List: c.v.List, Def: def})
+		vars = append(vars, pkglint.VerifCondVar{Name: c.v.Family, Kind: c.v.Kind, List: c.v.List, Def: c.v.Def})
 	}
-	var assigned []string
-	if c.v.Def == "F" {
-		assigned = []string{c.v.Name}
+	lines := []string{""}
+	if c.spec.Prefs {
+		lines[0] = ".include \"../../mk/bsd.prefs.mk\""
 	}
-	r := pkglint.VerifCondSimplify(vars, c.spec.Prefs, assigned, c.line)
+	lines = append(lines, c.pre...)
+	idx := len(lines)
+	lines = append(lines, c.line)
+	lines = append(lines, c.post...)
+	r := pkglint.VerifCondSimplifyLines(vars, lines, idx)
 	c.newLine, c.fixes, c.panicked = r.NewLine, r.Fixes, r.Panicked
 }
 
@@ -615,8 +696,12 @@ func c14FromShape(from string) (bare bool, positive bool, pat string) {
 }
 
 // the root cause a counterexample is filed under (the narrow key)
-func (st *c14State) cause(c *c14Case, kind, from string, v *string) string {
+func (st *c14State) cause(c *c14Case, kind, from string, v *string, n byte) string {
 	vc := c14ValClass(v, st.num)
+	if v == nil && n == 'M' && c.v.Ctx == "cond-self" && kind != "and" {
+		// isDefined takes an assignment inside a conditional block as a guarantee
+		return kind + "/undefined/conditional-assignment"
+	}
 	if kind == "and" {
 		if c.spec.Shape == "and-wrong-occurrence" {
 			return "and/wrong-occurrence"
@@ -674,6 +759,10 @@ func (st *c14State) judge(cases []*c14Case) {
 		for p := range c.mmn {
 			pool = append(pool[:len(pool):len(pool)], st.extraVal[p]...)
 		}
+		if c.v.Ctx == "self=" {
+			// SUBJECT= value right before the condition: that is the value
+			pool = []string{c.v.sampleValue()}
+		}
 		for i := range pool {
 			if c.v.admits(pool[i]) {
 				vals = append(vals, &pool[i])
@@ -701,7 +790,7 @@ func (st *c14State) judge(cases []*c14Case) {
 			chain = []step{{c, "unexplained", "", "", c.line, c.newLine, vals}}
 		}
 		for _, s := range chain {
-			toks := []string{"e", hx(strings.TrimPrefix(s.a, ".if ")), hx(strings.TrimPrefix(s.b, ".if ")), hx(c.v.Name)}
+			toks := []string{"e", hx(c14CondText(s.a)), hx(c14CondText(s.b)), hx(c.v.Name)}
 			for _, v := range vals {
 				if v == nil {
 					toks = append(toks, "U")
@@ -754,10 +843,16 @@ func (st *c14State) judge(cases []*c14Case) {
 					size += 1000
 				}
 				what := fmt.Sprintf("%s is rewritten to %s", q(s.a), q(s.b))
+				if len(c.pre) > 0 {
+					what = fmt.Sprintf("after the lines %q, %s", c.pre, what)
+				}
+				if !c.spec.Prefs {
+					what += " (bsd.prefs.mk not included)"
+				}
 				if c.layer == "wholerun" {
 					what = "pkglint -F: " + what
 				}
-				res.AddViolation(Violation{Key: "C14/" + st.cause(c, s.kind, s.from, v),
+				res.AddViolation(Violation{Key: "C14/" + st.cause(c, s.kind, s.from, v, n),
 					What: fmt.Sprintf("%s; with %s = %s (%s) the original is %s, the rewritten condition is %s",
 						what, c.v.Name, vs, c.v.Kind, tr[o], tr[n]),
 					FoundInput: true, Size: size, Replay: c.replay(v)})
@@ -787,16 +882,22 @@ func (c *c14Case) replayBroken(v *string, what string) map[string]any {
 }
 
 func c14NewCase(s c14Spec) *c14Case {
-	line, tree := s.build()
-	return &c14Case{spec: s, layer: "unit", line: line, tree: tree, v: s.variable()}
+	cond, tree := s.build()
+	pre, line, post := s.context(cond)
+	return &c14Case{spec: s, layer: "unit", line: line, pre: pre, post: post, tree: tree, v: s.variable()}
 }
+
+var c14ReDirective = regexp.MustCompile(`^\.[ \t]*(?:el)?if[ \t]+`)
+
+// the condition of a directive line
+func c14CondText(line string) string { return c14ReDirective.ReplaceAllString(line, "") }
 
 // ---------- generators ----------
 
 var c14Combos = []struct {
 	def   string
 	prefs bool
-}{{"D", true}, {"P", true}, {"P", false}, {"U", true}, {"L", true}, {"F", true}}
+}{{"D", true}, {"P", true}, {"P", false}, {"U", true}, {"L", true}, {"F", true}} // F = U + "SUBJECT= value" before the condition
 
 func c14Exhaustive(thorough bool) []c14Spec {
 	var out []c14Spec
@@ -804,6 +905,9 @@ func c14Exhaustive(thorough bool) []c14Spec {
 	add := func(s c14Spec) {
 		if s.Tag == "NT" {
 			s.Def = "U"
+		}
+		if s.Def == "F" {
+			s.Def, s.Ctx = "U", "self="
 		}
 		if !seen[s] {
 			seen[s] = true
@@ -819,7 +923,7 @@ func c14Exhaustive(thorough bool) []c14Spec {
 				for _, pos := range []bool{true, false} {
 					for _, pre := range prefixes {
 						for _, f := range forms {
-							add(c14Spec{"plain", f, p, pos, pre, k.tag, cb.def, cb.prefs, 0})
+							add(c14Spec{"plain", f, p, pos, pre, k.tag, cb.def, cb.prefs, 0, "", ""})
 						}
 					}
 				}
@@ -836,7 +940,7 @@ func c14Exhaustive(thorough bool) []c14Spec {
 							continue
 						}
 						for _, f := range forms {
-							add(c14Spec{"plain", f, p, pos, pre, k.tag, def, true, 0})
+							add(c14Spec{"plain", f, p, pos, pre, k.tag, def, true, 0, "", ""})
 						}
 					}
 				}
@@ -852,12 +956,47 @@ func c14Exhaustive(thorough bool) []c14Spec {
 				for _, p := range []string{"alpha", "0", "al*", "[0-9]*", "[yY][eE][sS]", ""} {
 					for _, pos := range []bool{true, false} {
 						for _, f := range forms {
-							add(c14Spec{sh, f, p, pos, "", tag, def, true, 0})
+							add(c14Spec{sh, f, p, pos, "", tag, def, true, 0, "", ""})
 							if sh == "defined-and" {
 								// a default value in :U makes the expression non-empty although the variable is undefined
-								add(c14Spec{sh, f, p, pos, "Ualpha", tag, def, true, 0})
+								add(c14Spec{sh, f, p, pos, "Ualpha", tag, def, true, 0, "", ""})
 							}
 						}
+					}
+				}
+			}
+		}
+	}
+	// what feeds isDefined: the lines before the condition x plain / parameterised subject
+	// x declaration x bsd.prefs.mk included or not
+	for _, tag := range []string{"EA", "YN", "ID", "VR", "LI", "UK", "NT"} {
+		for _, cb := range []struct {
+			def   string
+			prefs bool
+		}{{"U", true}, {"P", true}, {"P", false}, {"D", true}} {
+			if cb.def == "D" && tag != "YN" {
+				continue
+			}
+			for _, param := range []string{"", "foo"} {
+				for _, cx := range c14Contexts {
+					for _, p := range []string{"alpha", "[nN][oO]", "al*", "0", "[0-9]*"} {
+						for _, pos := range []bool{true, false} {
+							for _, f := range forms {
+								add(c14Spec{"plain", f, p, pos, "", tag, cb.def, cb.prefs, 0, param, cx})
+							}
+						}
+					}
+				}
+			}
+		}
+	}
+	// ... and under the compound shapes that mention defined()
+	for _, sh := range []string{"defined-and", "paren", "double-not"} {
+		for _, tag := range []string{"EA", "YN"} {
+			for _, cx := range c14Contexts {
+				for _, p := range []string{"alpha", "[nN][oO]", "al*"} {
+					for _, f := range forms {
+						add(c14Spec{sh, f, p, true, "", tag, "U", true, 0, "foo", cx})
 					}
 				}
 			}
@@ -879,7 +1018,11 @@ func c14Random(rng *Rng, n int) []c14Spec {
 		cb := Pick(rng, c14Combos)
 		k := Pick(rng, c14Kinds)
 		s := c14Spec{Pick(rng, shapes), Pick(rng, []string{"bare", "not-bare", "empty", "not-empty"}), sb.String(), !rng.Chance(25),
-			Pick(rng, []string{"", "", "tl", "U"}), k.tag, cb.def, cb.prefs, 0}
+			Pick(rng, []string{"", "", "tl", "U"}), k.tag, cb.def, cb.prefs, 0,
+			Pick(rng, []string{"", "", "foo", "x11"}), Pick(rng, append([]string{"", "", ""}, c14Contexts...))}
+		if s.Def == "F" {
+			s.Def, s.Ctx = "U", "self="
+		}
 		if s.Tag == "NT" {
 			s.Def = "U"
 		}
@@ -1016,17 +1159,22 @@ var c14RealVars = []struct {
 	name, kind string
 	list       bool
 	undef      bool
+	param      bool // declared as NAME.*: the subject is NAME.<param>
 }{
-	{"OPSYS", "enum:Linux NetBSD", false, false},                       // sysloadbl3, enum from mk/platform/*.mk, DefinedIfInScope
-	{"MACHINE_ARCH", "enum:i386 x86_64 aarch64 sparc64", false, false}, // AlwaysInScope|DefinedIfInScope
-	{"X11_TYPE", "enum:modular native", false, false},                  // DefinedIfInScope
-	{"OS_VERSION", "version", false, true},                             // sysloadbl3 BtVersion, not DefinedIfInScope
-	{"LOWER_OPSYS", "ident", false, true},                              // BtIdentifierDirect
-	{"PKG_OPTIONS", "option", true, false},                             // list of BtOption, DefinedIfInScope
-	{"PKG_DEVELOPER", "yesno", false, true},                            // usr BtYesNo
-	{"ABI", "enum:32 64", false, true},                                 // usr enum
-	{"MAKE_JOBS", "integer", false, true},                              // usr BtInteger
-	{"USE_LANGUAGES", "enum:ada c c99 c++ c++14", true, true},          // pkglist, enum from mk/compiler.mk
+	{"OPSYS", "enum:Linux NetBSD", false, false, false},                       // sysloadbl3, enum from mk/platform/*.mk, DefinedIfInScope
+	{"MACHINE_ARCH", "enum:i386 x86_64 aarch64 sparc64", false, false, false}, // AlwaysInScope|DefinedIfInScope
+	{"X11_TYPE", "enum:modular native", false, false, false},                  // DefinedIfInScope
+	{"OS_VERSION", "version", false, true, false},                             // sysloadbl3 BtVersion, not DefinedIfInScope
+	{"LOWER_OPSYS", "ident", false, true, false},                              // BtIdentifierDirect
+	{"PKG_OPTIONS", "option", true, false, false},                             // list of BtOption, DefinedIfInScope
+	{"PKG_DEVELOPER", "yesno", false, true, false},                            // usr BtYesNo
+	{"ABI", "enum:32 64", false, true, false},                                 // usr enum
+	{"MAKE_JOBS", "integer", false, true, false},                              // usr BtInteger
+	{"USE_LANGUAGES", "enum:ada c c99 c++ c++14", true, true, false},          // pkglist, enum from mk/compiler.mk
+	{"CHECK_BUILTIN", "yesno", false, true, true},                             // CHECK_BUILTIN.*: BtYesNo, PackageSettable, "*: use-loadtime"
+	{"USE_BUILTIN", "yesno", false, false, true},                              // USE_BUILTIN.*: BtYesNoIndirectly, DefinedIfInScope|NonemptyIfDefined
+	{"BUILDLINK_PREFIX", "ident", false, true, true},                          // BUILDLINK_PREFIX.*: BtPathname, use only
+	{"PKG_OPTIONS", "option", true, true, true},                               // PKG_OPTIONS.*: usrlist BtOption
 }
 
 var c14ReAutofix = regexp.MustCompile(`^AUTOFIX: [^:]+:(\d+): Replacing (".*") with (".*")\.$`)
@@ -1038,9 +1186,19 @@ func (st *c14State) wholeRunCases(cases []*c14Case, tag string) {
 	var sb strings.Builder
 	sb.WriteString("# $" + "NetBSD$\n\n.include \"../../mk/bsd.prefs.mk\"\n\n")
 	lineOf := map[int]*c14Case{}
-	for i, c := range cases {
-		lineOf[5+2*i] = c
-		sb.WriteString(c.line + "\n.endif\n")
+	lineno := 4
+	for _, c := range cases {
+		for _, l := range c.pre {
+			sb.WriteString(l + "\n")
+			lineno++
+		}
+		sb.WriteString(c.line + "\n")
+		lineno++
+		lineOf[lineno] = c
+		for _, l := range c.post {
+			sb.WriteString(l + "\n")
+			lineno++
+		}
 	}
 	if err := c14WriteTree(root, sb.String()); err != nil {
 		res.Broken = "whole-run: " + err.Error()
@@ -1062,7 +1220,7 @@ func (st *c14State) wholeRunCases(cases []*c14Case, tag string) {
 	}
 	alines := strings.Split(string(after), "\n")
 	for ln, c := range lineOf {
-		if ln-1 >= len(alines) || !strings.HasPrefix(alines[ln-1], ".if ") {
+		if ln-1 >= len(alines) || !c14ReDirective.MatchString(alines[ln-1]) {
 			res.Broken = fmt.Sprintf("whole-run: line %d of the rewritten file is not an .if line", ln)
 			return
 		}
@@ -1112,8 +1270,20 @@ func c14WholeRunSpecs(rng *Rng, n int) []c14Spec {
 	shapes := []string{"plain", "plain", "plain", "plain", "plain", "defined-and", "paren", "double-not", "quoted"}
 	var out []c14Spec
 	for i := 0; i < n; i++ {
-		out = append(out, c14Spec{Shape: Pick(rng, shapes), Form: Pick(rng, forms), Pat: Pick(rng, pats), Positive: !rng.Chance(25),
-			Prefix: Pick(rng, []string{"", "", "tl", "U"}), Prefs: true, Real: 1 + rng.Intn(len(c14RealVars))})
+		s := c14Spec{Shape: Pick(rng, shapes), Form: Pick(rng, forms), Pat: Pick(rng, pats), Positive: !rng.Chance(25),
+			Prefix: Pick(rng, []string{"", "", "tl", "U"}), Prefs: true, Real: 1 + rng.Intn(len(c14RealVars))}
+		if rng.Chance(40) {
+			s.Real = len(c14RealVars) - rng.Intn(4) // the parameterised families
+		}
+		if c14RealVars[s.Real-1].param {
+			// a parameter of its own per condition: what one condition's context assigns
+			// must not define the subject of another one further down in the same file
+			s.Param = fmt.Sprintf("p%d", i)
+			s.Ctx = Pick(rng, c14Contexts)
+		} else {
+			s.Ctx = Pick(rng, []string{"", "", "unrelated", "nested"})
+		}
+		out = append(out, s)
 	}
 	return out
 }
